@@ -332,6 +332,102 @@ def args_id_order(k1: str, v1: str, k2: str, v2: str) -> bool:
 '''
 
 
+SHAPE = r'''
+from engine.hsupport import *
+from engine import standins
+from engine.valuekinds import build, describe, same
+standins.install_sync_history()
+LAST_DETAIL = None
+SERIALIZERS = ["JsonSerializer", "PickleSerializer", "JsonPickleSerializer"]
+
+def echo(v=None):
+    return v
+
+def trip(ser, kind, min_size, wrappers, leaf_i):
+    """one value through every storage path of the real stack: client -> storage -> worker -> client"""
+    global LAST_DETAIL
+    reset_uuid()
+    v = build(wrappers, leaf_i)
+    what = describe(wrappers, leaf_i)
+    app = mk_app(kind, app_id="c15v" + kind, serializer_cls=ser, min_size_to_cache=min_size, local_cache_size=8)
+    task = app.task(echo); warm_task(task)
+    cds = app.client_data_store
+    def fail(why, got=None):
+        global LAST_DETAIL
+        LAST_DETAIL = {"serializer": ser, "backend": kind, "min_size_to_cache": min_size, "value": what, "got": repr(got)[:120], "why": why}
+        return False
+    try:
+        # 1. the serializer alone
+        r = app.serializer.deserialize(app.serializer.serialize(v))
+        if not same(v, r):
+            return fail("C15:value-changed:serializer", r)
+        # 2. client data store (inline or externalised), read by another process (no local cache)
+        ref = cds.serialize(v)
+        cds._deserialized_cache.clear()
+        r = cds.resolve(ref)
+        if not same(v, r):
+            return fail("C15:value-changed:client-data-store", r)
+        # 3. as a task argument: what a worker loads from the state backend
+        inv = task(v)
+        cds._deserialized_cache.clear()
+        loaded = app.state_backend.get_invocation(inv.invocation_id)
+        r = loaded.call.arguments.kwargs["v"]
+        if not same(v, r):
+            return fail("C15:value-changed:argument-seen-by-worker", r)
+        # 4. as a result: stored by the worker, read by the client
+        app.state_backend.set_result(inv.invocation_id, v)
+        cds._deserialized_cache.clear()
+        r = app.state_backend.get_result(inv.invocation_id)
+        if not same(v, r):
+            return fail("C15:value-changed:result-read-by-client", r)
+    except Exception as e:
+        return fail("C15:value-round-trip-raised:" + type(e).__name__, str(e)[:100])
+    LAST_DETAIL = {"value": what, "why": None}
+    return True
+
+def values___S_____K_____E__(w1: int, w2: int, w3: int, leaf_i: int) -> bool:
+    """
+    pre: 0 <= w1 <= 4 and 0 <= w2 <= 4 and 0 <= w3 <= 4 and 0 <= leaf_i <= 12
+    post: _
+    """
+    w1 = pick(w1, 0, 4); w2 = pick(w2, 0, 4); w3 = pick(w3, 0, 4); leaf_i = pick(leaf_i, 0, 12)
+    with NoTracing():
+        return trip(SERIALIZERS[__S__], ["mem", "sqlite"][__K__], [10**6, 0][__E__], [w1, w2, w3], leaf_i)
+'''
+
+SHAPEX = r'''
+def values_twin(w1: int, leaf_i: int) -> bool:
+    """
+    pre: 0 <= w1 <= 4 and 0 <= leaf_i <= 12
+    post: _
+    """
+    w1 = pick(w1, 0, 4); leaf_i = pick(leaf_i, 0, 12)
+    with NoTracing():
+        trip("JsonSerializer", "mem", 0, [w1, 0, 0], leaf_i)
+    return False
+
+def values_canary(w1: int, w2: int, leaf_i: int) -> bool:
+    """
+    pre: 0 <= w1 <= 4 and 0 <= w2 <= 4 and 0 <= leaf_i <= 12
+    post: _
+    """
+    # canary: a reconstruction that does not descend into lists nested in lists must be refuted
+    import pynenc.serializer.json_serializer as js
+    orig = js._reconstruct_from_json
+    def shallow(data):
+        if isinstance(data, list):
+            return [orig(x) if isinstance(x, dict) else x for x in data]
+        return orig(data)
+    js._reconstruct_from_json = shallow
+    w1 = pick(w1, 0, 4); w2 = pick(w2, 0, 4); leaf_i = pick(leaf_i, 0, 12)
+    try:
+        with NoTracing():
+            return trip("JsonSerializer", "mem", 10**6, [w1, w2, 0], leaf_i)
+    finally:
+        js._reconstruct_from_json = orig
+'''
+
+
 def _key_from_replay(args, kwargs, replay_out):
     m = re.search(r"'why': '([^']+)'", replay_out or "")
     return m.group(1) if m else "C15:unclassified"
@@ -354,6 +450,21 @@ def run(ctx: Ctx) -> None:
               Cond("finding_same_process_alias", "finding", 120, key="C15:reference-resolves-to-other-content:same-process-alias",
                    what="serialize(obj) caches the caller's own object under the reference: after the caller mutates obj, resolve(ref) in the same process returns the mutated value")]
     ctx.ch_batch("c15lru", src, conds)
+    vsrc, vconds = SHAPE.split("def values___S__")[0], []
+    vf = "def values___S__" + SHAPE.split("def values___S__")[1]
+    for si in range(3):
+        for k in range(2):
+            for e in range(2):
+                vsrc += vf.replace("__S__", str(si)).replace("__K__", str(k)).replace("__E__", str(e))
+                vconds.append(Cond(f"values_{si}_{k}_{e}", "confirm", 1500, keyfn=_key_from_replay))
+    vsrc += SHAPEX
+    vconds += [Cond("values_twin", "refute", 60), Cond("values_canary", "refute", 300)]
+    ctx.ch_batch("c15values", vsrc, vconds)
+    ctx.bounds["values"] = ("value grammar: up to 3 nested wrappers from {[x], [x, 7], {'k': x}, {'k': x, 'n': 1}} around a leaf from {int, str, float, None, bool, Enum, IntEnum, StrEnum, "
+                            "builtin exception, client exception, JsonSerializable object, [], {}}; JsonSerializer / PickleSerializer / JsonPickleSerializer; inline and externalised; both backends; "
+                            "paths: serializer alone, client data store read by another process, task argument loaded by a worker, result read by the client")
+    ctx.functions_encoded += ["JsonSerializer.serialize/deserialize (_preprocess_for_json, DefaultJSONEncoder.default, _reconstruct_from_json), PickleSerializer, JsonPickleSerializer",
+                              "BaseClientDataStore.serialize/resolve, serialize_arguments/deserialize_arguments; state backend upsert/get_invocation, set_result/get_result"]
     ctx.ch_batch("c15spell", SPELL, [Cond("spellings", "confirm", 600), Cond("spell_twin", "refute", 60)])
     budget = 900 if thorough else 120
     ctx.ch_batch("c15hunt", HUNT, [Cond("args_id_injective", "hunt", budget), Cond("args_id_order", "hunt", budget)])
